@@ -30,8 +30,35 @@ the unchanged code, that the 47 existing tests still pass with the change, and t
 | id | property | needs, to manifest | reported by (first rule) | note |
 |---|---|---|---|---|
 """ + "\n".join(rows) + "\n"
+trows = []
+tdir = root / "seeded" / "twins"
+if tdir.is_dir():
+    for d in sorted(tdir.iterdir()):
+        if not (d / "meta.json").exists():
+            continue
+        m = json.loads((d / "meta.json").read_text())
+        first = m.get("checks_not_silent_at_first") or m.get("checks_not_silent") or {}
+        note = m.get("author_notes", "")
+        what = m.get("what") or ""
+        trows.append(f"| `{m['id']}` | {what} | {', '.join(sorted(first)) or '-'} | {m.get('fixed_by', '')} |")
+ttext = """
+## 14. Independent behaviour-preserving refactorings (twins) and what they changed in the analyser
+
+Fresh sub-agents (property texts and a scratch worktree only) were also asked for realistic refactorings that must NOT change
+behaviour - renames, extracted / inlined helpers, equivalent expressions, restructured control flow, table dispatch,
+comprehensions - each with a differential test that prints a digest of returned bytes, exposed attributes, exception types and
+the handle I/O trace on generated inputs. A refactoring was kept (`seeded/twins/<id>/`: `patch.diff`, `equiv.py`, `meta.json`)
+after I confirmed in a scratch worktree that the digest is identical before and after and the 47 tests pass
+(`tools/try_twin.py`). Every check must stay silent (exit 0) on every twin; `tools/retwin_all.py` re-runs all 20 analyses on
+each of them. The third column lists the checks that were NOT silent when the twin first arrived: every one of those was a
+false alarm of the analyser (a rule tied to the shape of the code instead of its meaning) and was repaired in the engine or the
+rule, never by listing the twin as an exception.
+
+| id | refactoring | checks not silent at first | repaired by |
+|---|---|---|---|
+""" + "\n".join(trows) + "\n"
 p = root / "DESIGN.md"
 s = p.read_text()
 i = s.index("## 13. Independently seeded changes")
-p.write_text(s[:i] + text)
-print(len(rows), "rows")
+p.write_text(s[:i] + text + ttext)
+print(len(rows), "rows,", len(trows), "twins")
